@@ -59,6 +59,27 @@ pub mod trace {
         // never held across a scheduling point
         TRACE.lock().unwrap_or_else(|e| e.into_inner()).push(Acq { task, lock });
     }
+    static LAZY: StdMutex<Vec<(usize, usize)>> = StdMutex::new(Vec::new());
+    /// A task found a lazy static not yet initialised (in this execution) and goes on to initialise it.
+    pub(crate) fn lazy_attempt(lazy: usize) {
+        if !enabled() {
+            return;
+        }
+        let task = shuttle::current::get_current_task().map_or(usize::MAX, usize::from);
+        LAZY.lock().unwrap_or_else(|e| e.into_inner()).push((lazy, task));
+    }
+    /// Number of lazy statics whose initialisation was attempted by more than one task.
+    pub fn take_contended_lazies() -> usize {
+        let v = std::mem::take(&mut *LAZY.lock().unwrap_or_else(|e| e.into_inner()));
+        let mut by: std::collections::BTreeMap<usize, Vec<usize>> = std::collections::BTreeMap::new();
+        for (l, t) in v {
+            let e = by.entry(l).or_default();
+            if !e.contains(&t) {
+                e.push(t);
+            }
+        }
+        by.values().filter(|t| t.len() > 1).count()
+    }
     /// Take the trace recorded since the last call.
     pub fn take() -> Vec<Acq> {
         std::mem::take(&mut *TRACE.lock().unwrap_or_else(|e| e.into_inner()))
@@ -100,11 +121,15 @@ impl<T: ?Sized> Mutex<T> {
 /// `std::sync::LazyLock` look-alike over shuttle's lazy static: the value is
 /// per shuttle execution (= per simulated process) and the race for who
 /// initialises it is part of the schedule.
-pub struct LazyLock<T: Sync + 'static>(shuttle::lazy_static::Lazy<T>);
+pub struct LazyLock<T: Sync + 'static> {
+    lazy: shuttle::lazy_static::Lazy<T>,
+    /// epoch in which a `deref` has completed (only for the contention probe)
+    done_epoch: std::sync::atomic::AtomicUsize,
+}
 
 impl<T: Sync + 'static> LazyLock<T> {
     pub const fn new(f: fn() -> T) -> Self {
-        LazyLock(shuttle::lazy_static::Lazy::new(f))
+        LazyLock { lazy: shuttle::lazy_static::Lazy::new(f), done_epoch: std::sync::atomic::AtomicUsize::new(0) }
     }
 }
 
@@ -115,6 +140,14 @@ impl<T: Sync + 'static> Deref for LazyLock<T> {
         // live for 'static; std's LazyLock::deref has no such bound, hence
         // the extension here.
         let this: &'static Self = unsafe { &*std::ptr::from_ref(self) };
-        this.0.get()
+        use std::sync::atomic::Ordering::Relaxed;
+        let ep = trace::epoch();
+        if this.done_epoch.load(Relaxed) != ep {
+            trace::lazy_attempt(std::ptr::from_ref(this).cast::<()>() as usize);
+            let v = this.lazy.get();
+            this.done_epoch.store(ep, Relaxed);
+            return v;
+        }
+        this.lazy.get()
     }
 }
